@@ -344,6 +344,43 @@ func (c *Clients) runStream(cc *plan.ClientConn, cr *ConnRecord, srv plan.Server
 			}
 		}
 	}()
+	if cc.Straddle {
+		var held []byte
+		var heldOp *OpRecord
+		flush := func(next []byte) {
+			out := append(append([]byte{}, held...), next...)
+			if heldOp != nil {
+				heldOp.SentAt = c.S.Now() // complete only now
+				heldOp.Sent = true
+			}
+			if len(out) > 0 {
+				if _, err := conn.Write(out); err != nil && heldOp != nil {
+					heldOp.Err = err.Error()
+				}
+			}
+			heldOp = nil
+		}
+		for _, o := range ops {
+			c.sleepUntil(o.Op.AtUs)
+			q := BuildQuery(o.Op)
+			o.Query = q
+			f := binary.BigEndian.AppendUint16(nil, uint16(len(q)))
+			f = append(f, q...)
+			cut := len(f) - 1 - int(c.S.H("straddle", uint64(o.Op.Idx))%uint64(min(len(f)-1, 9)))
+			c.S.Logf("cl_send", "C%d op=%d stream straddle head=%d", cc.Idx, o.Op.Idx, cut)
+			flush(f[:cut])
+			held, heldOp = f[cut:], o
+		}
+		time.Sleep(time.Second)
+		flush(nil)
+		time.Sleep(time.Duration(cc.LingerUs) * time.Microsecond)
+		c.mu.Lock()
+		cr.ClosedAt = c.S.Now()
+		c.mu.Unlock()
+		conn.Close()
+		<-done
+		return
+	}
 	for i := 0; i < len(ops); {
 		o := ops[i]
 		c.sleepUntil(o.Op.AtUs)
